@@ -14,9 +14,11 @@ Problems(ev) ==
     \cup (IF LogCoherent(ev.alog) THEN {} ELSE {"incoherent issue list"})
 \* ---------------------------------------------------------------- C17: helper functions exactly when the equations use them
 OpsOf(ev) == UNION {Ops(ev.eqs[i].tree) : i \in DOMAIN ev.eqs}
-HelperOfC == [xor |-> "xor", min |-> "min", max |-> "max", sec |-> "sec", sech |-> "sech", arcsec |-> "asec", arcsech |-> "asech"]
+HelperOfC == [xor |-> "xor", min |-> "min", max |-> "max", sec |-> "sec", csc |-> "csc", cot |-> "cot", sech |-> "sech", csch |-> "csch", coth |-> "coth",
+              arcsec |-> "asec", arccsc |-> "acsc", arccot |-> "acot", arcsech |-> "asech", arccsch |-> "acsch", arccoth |-> "acoth"]
 HelperOfPy == [eq |-> "eq_func", neq |-> "neq_func", lt |-> "lt_func", leq |-> "leq_func", gt |-> "gt_func", geq |-> "geq_func", and |-> "and_func", or |-> "or_func",
-               xor |-> "xor_func", not |-> "not_func", min |-> "min", max |-> "max", sec |-> "sec", sech |-> "sech", arcsec |-> "asec", arcsech |-> "asech"]
+               xor |-> "xor_func", not |-> "not_func", min |-> "min", max |-> "max", sec |-> "sec", csc |-> "csc", cot |-> "cot", sech |-> "sech", csch |-> "csch", coth |-> "coth",
+               arcsec |-> "asec", arccsc |-> "acsc", arccot |-> "acot", arcsech |-> "asech", arccsch |-> "acsch", arccoth |-> "acoth"]
 NeededC(ev) == {HelperOfC[o] : o \in OpsOf(ev) \cap DOMAIN HelperOfC}
 NeededPy(ev) == {HelperOfPy[o] : o \in OpsOf(ev) \cap DOMAIN HelperOfPy}
 StructProblems(ev) ==
